@@ -103,7 +103,12 @@ func Variants(samIn, refIn io.Reader, refFromFile bool, annoIn io.Reader, annoSu
 
 	go groupSamRecords(samIn, cSH, cSR, cReadDone, cErr)
 
-	_ = <-cSH
+	// (the reader reports a missing or unreadable header on the error channel instead)
+	select {
+	case err := <-cErr:
+		return err
+	case <-cSH:
+	}
 
 	var wgAlign sync.WaitGroup
 	wgAlign.Add(threads)
